@@ -32,7 +32,7 @@ def table_spec(cells, dev_cells, *, cont, kinds, params, quanti_values=None, shu
     rows = _rows_from_cells(cells, cont)
     if shuffle_seed is not None:
         random.Random(shuffle_seed).shuffle(rows)
-    qv = quanti_values or list(range(1, K + 1))
+    qv = quanti_values or list(range(0, K))          # the lowest quantile is 0.0 (a falsy number)
     names = {'quanti': [None] + qv, 'ordinal': [None] + LETTERS[:K], 'categ': [None] + ['m%d' % i for i in range(1, K + 1)]}
     feats = {}
     for kind in kinds:
